@@ -810,6 +810,32 @@ func (e *Env) evalCall(n *ECall) Val {
 			return boolVal("false")
 		}
 		return boolVal(and(not(eq(m.S, "0")), vc.mapHas(e.st, m, k)))
+	case "called":
+		// called(name, n): the execution considered reached the n-th call named `name`
+		if len(n.Args) != 2 || vc.fn == nil || vc.callByName == nil {
+			sfail("called(name, n)")
+		}
+		nm := ""
+		switch a := n.Args[0].(type) {
+		case *EIdent:
+			nm = a.Name
+		case *ESel:
+			if pk, ok := a.X.(*EIdent); ok {
+				nm = pk.Name + "." + a.Name
+			}
+		}
+		kn, ok := n.Args[1].(*EInt)
+		if nm == "" || !ok {
+			sfail("called(name, n)")
+		}
+		in, found := vc.callByName[fmt.Sprintf("%s#%d", nm, kn.V.Int64())]
+		if !found {
+			sfail("called: no call %s#%d in %s", nm, kn.V.Int64(), vc.key)
+		}
+		if pc, reached := vc.callPC[in]; reached {
+			return boolVal(pc)
+		}
+		return boolVal("false")
 	case "callarg":
 		// callarg(name, n, i): i-th argument (receiver first) of the n-th call named `name`
 		if len(n.Args) != 3 || vc.fn == nil || vc.callByName == nil {
